@@ -146,6 +146,12 @@ type Node struct {
 	CK    string // custom: int | str
 	CTest TestSpec
 
+	// pre: Preprocess(fn, Elem). Parse kinds: idany fail failissue atoi trim mismatch; Validate kinds: vid vinc vfail
+	PreKind string
+	PreID   int
+	PreMsg  string
+	PreIss  PostSpec // failissue: Code Path Msg DType
+
 	rtype reflect.Type
 }
 
@@ -164,7 +170,7 @@ func (n *Node) DType() string {
 		}
 	case "slice":
 		return "slice"
-	case "ptr":
+	case "ptr", "pre":
 		return n.Elem.DType()
 	case "struct":
 		return "struct"
@@ -232,6 +238,15 @@ func (n *Node) Sx(ext *Ext) *sx.Node {
 		return sx.T("struct", sx.L(fs...), testsSx(n.Tests, ext), postsSx(n.Posts))
 	case "custom":
 		return sx.T("custom", sx.A(n.CK), n.CTest.Sx(ext))
+	case "pre":
+		fn := []*sx.Node{}
+		switch n.PreKind {
+		case "vfail":
+			fn = append(fn, sx.S(n.PreMsg))
+		case "failissue":
+			fn = append(fn, sx.S(n.PreIss.Code), sx.S(n.PreIss.Path), sx.S(n.PreIss.DType), sx.S(n.PreIss.Msg))
+		}
+		return sx.T("pre", sx.I(int64(n.PreID)), sx.T(n.PreKind, fn...), n.Elem.Sx(ext))
 	}
 	panic("Sx: bad node")
 }
